@@ -157,7 +157,9 @@ def gen(rng, idx, tier, seed):
             for v in fs['vars']:
                 if v['kind'] != 'data':
                     v['kind'] = str(rng.choice(['asc_uniform',
-                                                'asc_nonuniform']))
+                                                'asc_nonuniform',
+                                                'desc_uniform',
+                                                'desc_nonuniform']))
             spec['file'] = fs
             spec['units'] = str(rng.choice(
                 ['hours since 2000-01-01 00:00:00', 'days since 1999-12-31',
